@@ -6,10 +6,8 @@ package main
 //           for every schema transformation of the C15 list and every parameterless language pass, the
 //           schemas handed in must be unchanged afterwards (deep snapshot by reflection, not the IR
 //           projection: `any` payloads, trails and the ordered map representation are included)
-//  veneers  the `duplicate` builder rule and the `duplicate` option rule are the two "duplicate
-//           rules" of the property: the duplicate must equal its source in every declared field
-//           except what the rule documents it sets (Name, one VeneerTrail entry), share nothing
-//           with it, and mutating it must not change the source
+//  (the duplicate rules - duplicate_object, the builder and the option rule `duplicate` - are judged
+//  in c18dup.go on the cases of spec/HeapDup.tla)
 //
 // Inputs are produced by the C18 filler from TLC shapes; references are pointed at existing
 // objects afterwards so that the passes find something to do.
@@ -21,7 +19,6 @@ import (
 	"os"
 	"reflect"
 	"sort"
-	"strings"
 	"sync"
 
 	"github.com/grafana/cog/verifapi"
@@ -189,23 +186,19 @@ func c18PassList() []c18Pass {
 }
 
 type c18RealStats struct {
-	Inputs        int            `json:"schema_inputs"`
-	Runs          int            `json:"process_calls"`
-	Errors        map[string]int `json:"pass_errors"`
-	Panics        map[string]int `json:"pass_panics"`
-	Effective     map[string]int `json:"pass_changed_its_copy"` // runs whose result differs from the input: the pass did something
-	InputMutated  int            `json:"runs_with_input_mutated"`
-	BuilderInputs int            `json:"builder_inputs"`
-	DupBuilders   int            `json:"builder_duplicates_judged"`
-	DupOptions    int            `json:"option_duplicates_judged"`
-	DupMutations  int            `json:"mutations_applied_to_duplicates"`
+	Inputs       int            `json:"schema_inputs"`
+	Runs         int            `json:"process_calls"`
+	Errors       map[string]int `json:"pass_errors"`
+	Panics       map[string]int `json:"pass_panics"`
+	Effective    map[string]int `json:"pass_changed_its_copy"` // runs whose result differs from the input: the pass did something
+	InputMutated int            `json:"runs_with_input_mutated"`
 }
 
 var c18RevealingOps = []string{"SetElem", "MapInsert", "MapDelete", "SetThroughPointer", "AppendWithinCap", "SetField"}
 
 func c18Real(args []string) int {
 	fs := flag.NewFlagSet("c18-real", flag.ExitOnError)
-	shapesIn := fs.String("shapes", "", "ndjson file of shapes with root Schemas or Builder")
+	shapesIn := fs.String("shapes", "", "ndjson file of shapes with root Schemas")
 	par := fs.Int("par", 16, "parallel workers")
 	_ = fs.Parse(args)
 	shapes, err := c18ReadShapes(*shapesIn)
@@ -284,10 +277,6 @@ func (st *c18RealStats) merge(o *c18RealStats) {
 	st.Inputs += o.Inputs
 	st.Runs += o.Runs
 	st.InputMutated += o.InputMutated
-	st.BuilderInputs += o.BuilderInputs
-	st.DupBuilders += o.DupBuilders
-	st.DupOptions += o.DupOptions
-	st.DupMutations += o.DupMutations
 	for k, v := range o.Errors {
 		st.Errors[k] += v
 	}
@@ -412,158 +401,7 @@ func c18RealShape(s c18Shape, roots map[string]reflect.Type, passes []c18Pass) (
 					add(sig, J{"shape": shapeJ, "pass": p.name, "changed_in_input": cpath, "was": before[cpath], "now": after[cpath]})
 				}
 			}
-		case "Builder":
-			mk := func() (reflect.Value, verifapi.Builder, string) {
-				v, f := c18New(roots["Builder"], s)
-				if f.err != nil {
-					return v, verifapi.Builder{}, f.err.Error()
-				}
-				return v, v.Interface().(verifapi.Builder), ""
-			}
-			st.BuilderInputs++
-			// ---- builder rule `duplicate`
-			{
-				v, b, problem := mk()
-				if problem != "" {
-					return st, sigs, samples, problem
-				}
-				before := map[string]string{}
-				flatten(v, "", before)
-				rule := verifapi.BuilderDuplicate(verifapi.BuilderEveryBuilder(), "Duplicated", nil)
-				// the rule receives the builders by value: hand it the very value we observe
-				in := verifapi.Builders{v.Interface().(verifapi.Builder)}
-				_ = b
-				res, err := rule(verifapi.Schemas{}, in)
-				if err != nil || len(res) != 2 {
-					add("C18/builder.Duplicate/no-duplicate/"+s.Fill, J{"shape": shapeJ, "problem": fmt.Sprint(err, len(res))})
-					return st, sigs, samples, ""
-				}
-				afterRule := map[string]string{}
-				flatten(v, "", afterRule)
-				if d := flatDiff(before, afterRule); len(d) > 0 {
-					add("C18/builder.Duplicate/Source-changed/"+strings.Trim(strings.SplitN(d[0]+".", ".", 3)[1], "[]{}#"), J{"shape": shapeJ, "changed": d[0]})
-				}
-				src := reflect.New(v.Type()).Elem()
-				src.Set(reflect.ValueOf(res[0]))
-				dup := reflect.New(v.Type()).Elem()
-				dup.Set(reflect.ValueOf(res[1]))
-				c18JudgeDuplicate("builder.Duplicate", src, dup, "Builder", c18RevealingOps, shapeJ, st, add)
-				st.DupBuilders++
-			}
-			// ---- option rule `duplicate`
-			_, b, _ := mk()
-			if len(b.Options) == 0 {
-				return st, sigs, samples, ""
-			}
-			{
-				_, b, _ := mk()
-				rule := verifapi.OptionDuplicate(verifapi.OptionEveryOption(), "duplicated")
-				opts := rule.Action(verifapi.Schemas{}, b, b.Options[0])
-				if len(opts) != 2 {
-					add("C18/option.Duplicate/no-duplicate/"+s.Fill, J{"shape": shapeJ, "n": len(opts)})
-					return st, sigs, samples, ""
-				}
-				src := reflect.New(reflect.TypeOf(opts[0])).Elem()
-				src.Set(reflect.ValueOf(opts[0]))
-				dup := reflect.New(reflect.TypeOf(opts[1])).Elem()
-				dup.Set(reflect.ValueOf(opts[1]))
-				c18JudgeDuplicate("option.Duplicate", src, dup, "Option", c18RevealingOps, shapeJ, st, add)
-				st.DupOptions++
-			}
 		}
 	}
 	return st, sigs, samples, ""
-}
-
-// c18JudgeDuplicate: the duplicate must be the source except for Name and the last VeneerTrail entry.
-func c18JudgeDuplicate(site string, src, dup reflect.Value, rootName string, ops []string, shapeJ J, st *c18RealStats, add func(string, J)) {
-	static := true
-	// undo what the rule documents it changes
-	name := dup.FieldByName("Name")
-	trail := dup.FieldByName("VeneerTrail")
-	srcTrail := src.FieldByName("VeneerTrail")
-	if !name.IsValid() || !trail.IsValid() {
-		add("C18/"+site+"/harness/no-Name-or-VeneerTrail", J{"shape": shapeJ})
-		return
-	}
-	name.Set(src.FieldByName("Name"))
-	if trail.Len() == srcTrail.Len()+1 && strings.HasPrefix(trail.Index(trail.Len()-1).String(), "Duplicate[") {
-		trail.Set(trail.Slice(0, trail.Len()-1))
-	}
-	before := map[string]string{}
-	flatten(src, "", before)
-	an, err := c18Analyse(src, dup)
-	if err != nil {
-		add("C18/"+site+"/harness/extract", J{"shape": shapeJ, "problem": err.Error()})
-		return
-	}
-	// a defect that some DeepCopy method reproduces is that method's defect (same signature as in
-	// c18-run); one that none reproduces was introduced by the rule itself
-	sigOf := func(at c18Attr, byDeepCopy bool, class string) string {
-		if byDeepCopy {
-			return fmt.Sprintf("C18/%s.DeepCopy/%s/%s", at.typ, class, at.field)
-		}
-		return fmt.Sprintf("C18/%s/%s/%s", site, class, at.field)
-	}
-	type attrOK struct {
-		at c18Attr
-		ok bool
-	}
-	sharedAttr := map[string]attrOK{}
-	memo := map[string]attrOK{}
-	attribute := func(path []pstep, class string) attrOK {
-		key := class + "|" + pathNorm(path)
-		for _, p := range path {
-			if p.any {
-				key += "|any"
-				break
-			}
-		}
-		if a, ok := memo[key]; ok {
-			return a
-		}
-		at, ok := c18AttributeR(src, rootName, path, class, true)
-		memo[key] = attrOK{at, ok}
-		return memo[key]
-	}
-	for _, sh := range an.shared {
-		if sh.origPath == nil {
-			continue
-		}
-		a := attribute(sh.origPath, "Shared")
-		sharedAttr[pathString(sh.origPath)] = a
-		if static {
-			add(sigOf(a.at, a.ok, "Shared"), J{"shape": shapeJ, "seen_through": site, "path": pathString(sh.origPath)})
-		}
-	}
-	if static {
-		for _, d := range an.diffs {
-			a := attribute(d.path, d.class)
-			add(sigOf(a.at, a.ok, d.class), J{"shape": shapeJ, "seen_through": site, "path": pathString(d.path), "source": d.a, "duplicate": d.b})
-		}
-	}
-	w := an.w
-	for _, op := range ops {
-		w.mut, w.seen, w.muts = op, map[string]bool{}, nil
-		w.root(dup, "k")
-		st.DupMutations += len(w.muts)
-	}
-	after := map[string]string{}
-	flatten(src, "", after)
-	seen := map[string]bool{}
-	for _, cpath := range flatDiff(before, after) {
-		at, ok := attrOK{}, false
-		if ps, found := longestPrefix(cpath, func(p string) bool { _, in := sharedAttr[p]; return in }); found {
-			at, ok = sharedAttr[ps], true
-		}
-		sig := fmt.Sprintf("C18/%s/Mutation-visible/unattributed", site)
-		if ok {
-			sig = sigOf(at.at, at.ok, "Mutation-visible")
-		}
-		if seen[sig] {
-			continue
-		}
-		seen[sig] = true
-		add(sig, J{"shape": shapeJ, "seen_through": site, "ops": ops, "changed_in_source": cpath, "was": before[cpath], "now": after[cpath]})
-	}
 }
